@@ -11,6 +11,16 @@ from . import app, clock, isobox, mpd, strategies
 _scan_cache: dict[str, dict] = {}
 
 
+def _decode_times(frs) -> list[int]:
+    """tfdt where present; otherwise (14496-12 8.8.12) the end of the previous fragment, 0 for the first."""
+    out, end = [], 0
+    for f in frs:
+        t = f.decode_time if f.decode_time is not None else end
+        out.append(t)
+        end = t + f.duration()
+    return out
+
+
 def scan(path: str) -> dict:
     """Independent ground truth for a stored file (cached per process)."""
     if path not in _scan_cache:
@@ -22,7 +32,7 @@ def scan(path: str) -> dict:
             "iv_size": info.get("iv_size"), "kid": info.get("kid"),
             "init_end": info["init_end"],
             "durations": [f.duration() for f in frs],
-            "decode_times": [f.decode_time for f in frs],
+            "decode_times": _decode_times(frs), "has_tfdt": [f.decode_time is not None for f in frs],
             "frag_start": [f.start for f in frs], "frag_end": [f.end for f in frs],
             "moof_start": [f.moof.start for f in frs],
             "payload_off": [(f.mdat.start + f.mdat.hdr, f.mdat.end) for f in frs],
@@ -39,7 +49,7 @@ def stream_constants(env: app.Env, stream: str) -> dict:
     sc = scan(info["files"][ref]["path"])
     ts = sc["timescale"]
     total = sum(sc["durations"])
-    return {"ref_us": total * 10**6 // ts, "seg_us": sc["durations"][0] * 10**6 // ts,
+    return {"ref_us": total * 10**6 // ts, "seg_us": max(1, sc["durations"][0] * 10**6 // ts),
             "tick_us": max(1, 10**6 // ts), "timescale": ts, "ref_ticks": total}
 
 
@@ -77,14 +87,32 @@ class Session:
         return self.env.get(rel(url), client=self.client, **kw)
 
 
+_synth_order: list[str] = []
+
+
+def resolve_stream(env: app.Env, stream) -> str:
+    """'bbb' | 'tears' | {"synth": spec} -> directory name (synthetic streams are created on demand;
+    the shared app is rebuilt after 250 of them)."""
+    if isinstance(stream, str):
+        return stream
+    sid = app.add_synth_stream(env, stream["synth"])
+    return sid
+
+
+def stream_label(stream) -> str:
+    return stream if isinstance(stream, str) else "synthetic"
+
+
 def live_case_to_request(env: app.Env, case: dict):
     """case: {stream, template, opts, clock} -> (T, url)."""
+    case = dict(case, stream=resolve_stream(env, case["stream"]))
     consts = stream_constants(env, case["stream"])
     T, start = strategies.resolve_clock(case["clock"], consts["ref_us"], consts["seg_us"], consts["tick_us"])
     opts = dict(case["opts"])
     if start is not None:
         opts["start"] = start
     url = f"/dash/live/{case['stream']}/{case['template']}" + strategies.query_string(opts)
+    consts["stream"] = case["stream"]
     return T, url, consts
 
 
